@@ -26,7 +26,7 @@ def sync_lock(crate_dir, repo):
         shutil.copyfile(src, os.path.join(crate_dir, 'Cargo.lock'))
 
 
-def run_kani(harnesses, profile, repo='/repo', jobs=12, timeout=1800, crate='kani'):
+def run_kani(harnesses, profile, repo='/repo', jobs=12, timeout=900, crate='kani'):
     """returns dict: harness -> {status, failed_checks, covers, time_s}, plus raw log"""
     crate_dir = os.path.join(ROOT, crate)
     sync_lock(crate_dir, repo)
@@ -40,7 +40,11 @@ def run_kani(harnesses, profile, repo='/repo', jobs=12, timeout=1800, crate='kan
         p = subprocess.run(cmd, cwd=crate_dir, env=env_for(profile), capture_output=True, text=True, timeout=timeout)
         log, rc = p.stdout + p.stderr, p.returncode
     except subprocess.TimeoutExpired as e:
-        log, rc = (e.stdout or '') + '\nTIMEOUT', 124
+        out = e.stdout or ''
+        if isinstance(out, bytes):
+            out = out.decode('utf-8', 'replace')
+        log, rc = out + '\nTIMEOUT after %ds' % timeout, 124
+        subprocess.run(['pkill', '-x', 'cbmc'], capture_output=True)
     wall = time.time() - t0
     res = {}
     cur = {}      # thread -> harness
